@@ -880,3 +880,136 @@ func ascendingInduction(idx ssa.Value) bool {
 	}
 	return false
 }
+
+// ---------------------------------------------------------------------------
+// R-WSSCLOSE
+
+var ruleWSSClose = &Rule{
+	ID:    "R-WSSCLOSE",
+	Doc:   "inside a bracket/paren/brace context (pushWSS(false)) the parser advances past the closing delimiter with advanceWSS, never with advance (which swallows the whitespace that separates list elements in the enclosing whitespace-sensitive context): the last token-consuming step before an expression node is returned from such a context is advanceWSS",
+	Floor: 3,
+	Run:   runWSSClose,
+}
+
+func runWSSClose(c *Ctx, r *Reporter) {
+	a := newEOLAnalysis(c, r)
+	if a == nil {
+		return
+	}
+	p := a.p
+	pushWSS, adv, advWSS := a.fn("(*parser).pushWSS"), a.fn("(*parser).advance"), a.fn("(*parser).advanceWSS")
+	if pushWSS == nil || adv == nil || advWSS == nil {
+		r.Undecided("pushWSS/advance/advanceWSS not found")
+		return
+	}
+	// functions that open a whitespace-insensitive context
+	nonWSS := map[*ssa.Function]bool{}
+	for _, fn := range a.fns {
+		for _, ci := range callsTo(fn, pushWSS) {
+			if k, ok := ci.Common().Args[1].(*ssa.Const); ok && k.Value != nil && k.Value.ExactString() == "false" {
+				nonWSS[fn] = true
+			}
+		}
+	}
+	// plus helpers called only from such functions
+	callers := map[*ssa.Function]map[*ssa.Function]bool{}
+	for _, fn := range a.fns {
+		for _, b := range fn.Blocks {
+			for _, ins := range b.Instrs {
+				if ci, ok := ins.(ssa.CallInstruction); ok {
+					if sc := ci.Common().StaticCallee(); sc != nil && a.byName[ssaDisplayName(sc)] == sc {
+						if callers[sc] == nil {
+							callers[sc] = map[*ssa.Function]bool{}
+						}
+						callers[sc][fn] = true
+					}
+				}
+			}
+		}
+	}
+	for changed := true; changed; {
+		changed = false
+		for _, fn := range a.fns {
+			if nonWSS[fn] || len(callers[fn]) == 0 || !a.consumes[fn] {
+				continue
+			}
+			all := true
+			for cl := range callers[fn] {
+				if !nonWSS[cl] {
+					all = false
+				}
+			}
+			if all {
+				nonWSS[fn] = true
+				changed = true
+			}
+		}
+	}
+	names := []string{}
+	for fn := range nonWSS {
+		names = append(names, ssaDisplayName(fn))
+	}
+	sort.Strings(names)
+	for _, name := range names {
+		fn := a.byName[name]
+		if fn.Signature.Results().Len() != 1 {
+			continue
+		}
+		if _, isIface := fn.Signature.Results().At(0).Type().Underlying().(*types.Interface); !isIface {
+			continue // only expression parsers (return a Node)
+		}
+		n := 0
+		for _, ret := range returnsOf(fn) {
+			if returnsOnlyNil(ret) {
+				continue
+			}
+			// a return that forwards another parser's result ends with that parser's own closing step
+			forwards := false
+			for _, v := range resultValues(ret, 0) {
+				if call, ok := v.(*ssa.Call); ok && call.Call.StaticCallee() != nil && a.consumes[call.Call.StaticCallee()] {
+					forwards = true
+				}
+			}
+			if forwards {
+				continue
+			}
+			n++
+			bad := lastConsumingCalls(ret, a, adv)
+			r.Check(len(bad) == 0, fmt.Sprintf("pkg/parser.%s#close[%d]", name, n), p.Rel(instrPos(ret)), "the closing delimiter is passed with advanceWSS",
+				fmt.Sprintf("%s returns an expression after advancing past its last token with advance() inside a whitespace-insensitive context: whitespace after the closing delimiter is swallowed, so `x[0:1] -1` or `[a[:1] [2]]` are parsed as one expression", name))
+		}
+	}
+}
+
+// lastConsumingCalls: walking backwards from ret, the nearest token-consuming calls; returns those that are direct calls of `advance`.
+func lastConsumingCalls(ret *ssa.Return, a *eolAnalysis, adv *ssa.Function) []ssa.Instruction {
+	var bad []ssa.Instruction
+	seen := map[*ssa.BasicBlock]bool{}
+	var walk func(b *ssa.BasicBlock, from int)
+	walk = func(b *ssa.BasicBlock, from int) {
+		for i := from; i >= 0; i-- {
+			call, ok := b.Instrs[i].(*ssa.Call)
+			if !ok {
+				continue
+			}
+			sc := call.Call.StaticCallee()
+			if sc == nil || !a.consumes[sc] {
+				continue
+			}
+			if sc == adv {
+				bad = append(bad, call)
+			}
+			return
+		}
+		for _, pred := range b.Preds {
+			if !seen[pred] {
+				seen[pred] = true
+				walk(pred, len(pred.Instrs)-1)
+			}
+		}
+	}
+	blk := ret.Block()
+	seen[blk] = true
+	walk(blk, len(blk.Instrs)-1)
+	return bad
+}
